@@ -627,7 +627,14 @@ def evaluate(prop, res):
             rs, ms = collections.Counter(real_n), collections.Counter(mdl_n)
             if prop == "C17":
                 cov["accessor_items"] += sum(1 for x in real_n if x[0] == "fn")
-                real_acc = set((k, n) for (k, n, p, c, dd) in real_n if k == "fn" and not n in ("raw_value", "new_with_raw_value", "builder", "build", "new"))
+                # the API surface is what is `pub`: an accessor emitted without `pub` does not exist for the user of the type
+                # (inside the defining module it would still resolve, which is why a test next to the struct cannot see it)
+                real_acc = set((k, n) for (k, n, p, c, dd) in real_n if k == "fn" and p and not n in ("raw_value", "new_with_raw_value", "builder", "build", "new"))
+                private_acc = sorted(n for (k, n, p, c, dd) in real_n if k == "fn" and not p and ("fn", n) in expected_accessors(d))
+                if private_acc:
+                    src, _ = decl_source(table, d)
+                    add("violation", "an accessor the access specifier demands is emitted without `pub`",
+                        {"declaration": name, "private": private_acc, "source": src})
                 # builder steps share the with_ names; sets ignore multiplicity
                 want = expected_accessors(d)
                 if real_acc != want:
